@@ -282,6 +282,10 @@ impl ShmWrite for ShmWriter {
             };
             generation.store(gen, atomic::Ordering::Release);
 
+            // The Release store above only orders what precedes it. Keep the stores of the
+            // record below from becoming visible before the odd generation does.
+            atomic::fence(atomic::Ordering::Release);
+
             #[cfg(clockbound_verif)]
             crate::verif::data_write(self.ceb, ceb);
             self.ceb.write(*ceb);
